@@ -192,8 +192,6 @@ def ifworld2():
 
 KNOWN = [
  # id, gate(s), title, query, variables, world
- ("KF-C01-10", "op.directiveVariables", "variable used only in a directive is neither declared in the sub-query nor forwarded",
-  'query($s: Boolean!) { getHumans { name @skip(if: $s) } }', {"s": False}, None),
  ("KF-C01-11", "op.variableDefaults", "client-declared variable default is lost when no value is supplied",
   'query($p: String = "zz") { getHumans { name(prefix: $p) } }', {}, None),
  ("KF-C01-12", "op.variableNamedId", "a client variable named id collides with the stitched $id of child steps",
@@ -367,6 +365,13 @@ CASES["regress/KF-C18-5.json"] = teardown_case("frame", [("client", "start", 0, 
 CASES["regress/KF-C18-5.json"]["case"]["header_pause_us"] = 400
 CASES["regress/KF-C01-13.json"] = exec_case("C01", "data-mismatch", '{ getHumans { x: name name: nick } }')
 CASES["regress/KF-C16-2.json"] = exec_case("C16", "differs", '{ __type(name: "Query") { x: name name: kind } }')
+
+_SUBOP = {"query": "subscription { animalAdded { name owner { name phone } } }"}
+CASES["regress/KF-C17-1.json"] = {"property": "C17", "signature": "payload-mismatch", "case": {"world": world(), "config": {"planner": "cached", "ttl_ns": 3600000000000}, "conns": 1,
+    "subs": [{"conn": 0, "id": "s1", "op": _SUBOP, "field": "animalAdded"}, {"conn": 0, "id": "s2", "op": _SUBOP, "field": "animalAdded"}],
+    "events": [{"sub": 0, "value": {"__type": "Animal", "name": "rex", "owner": "Human_1"}}, {"sub": 1, "value": {"__type": "Animal", "name": "tom", "owner": "Human_2"}}]}}
+CASES["regress/KF-C01-10.json"] = exec_case("C01", "gateway-errors", 'query($s: Boolean!) { getHumans { name @skip(if: $s) phone @include(if: $s) } }', {"s": False})
+CASES["regress/KF-C01-31.json"] = exec_case("C01", "data-mismatch", '{ a: getAnimals { owner { ...F } } b: getHuman { ...F } } fragment F on Human { best { phone } }')
 
 if __name__ == "__main__":
     import sys
